@@ -22,33 +22,53 @@
 (* A trace is "backlogged" when every offered packet is at least as large   *)
 (* as the tokens accrued since the previous offer (offered load >= rate)    *)
 (* and at most MaxPkt: the discrete counterpart of "always has a packet     *)
-(* waiting" for a limiter that only runs when a packet arrives.             *)
+(* waiting" for a limiter that only runs when a packet arrives.  Lower is   *)
+(* claimed only for Burst >= 2*MaxPkt: a limiter that is consulted only at  *)
+(* arrivals wastes what accrues beyond the cap between two offers, and with *)
+(* a smaller bucket even the exact reference bucket wastes without bound    *)
+(* (MC_lower_tight.cfg is TLC's counterexample: Burst = MaxPkt).            *)
 (*                                                                         *)
 (* Model-checked here (TLC, small constants): the REFERENCE bucket - exact  *)
 (* rational tokens kept as integer tok = tokens*Scale - satisfies Upper and *)
-(* Lower on every arrival sequence.  Real traces of bpf/qos_ratelimit.c are *)
-(* judged against the same two inequalities by Apalache (64-bit values).    *)
+(* Lower on every arrival sequence.  Two formulations:                      *)
+(*  - history: hist records the arrivals, Upper/Lower quantify over all     *)
+(*    windows (bounded length MaxLen);                                      *)
+(*  - potentials: lo = P(now) - min P over earlier arrivals with            *)
+(*    P = Rate*t - Scale*(admitted so far), hi likewise for the upper bound; *)
+(*    UpperP/LowerP bound them.  The state is finite without hist, so TLC   *)
+(*    covers arrival sequences of EVERY length (MC_*_unbounded.cfg, VIEW    *)
+(*    without now/hist); MC_agree.cfg checks that both formulations agree   *)
+(*    on every bounded history.                                             *)
+(* Real traces of bpf/qos_ratelimit.c are judged against the window         *)
+(* inequalities by Apalache (64-bit values).                                *)
 (***************************************************************************)
 EXTENDS Integers, Sequences, TLC
 
 CONSTANTS Rate, Scale, Burst, MaxPkt, MaxGap, MaxLen
 
-VARIABLES tok, now, hist   \* tok = tokens * Scale; hist = sequence of [t, size, adm]
-vars == <<tok, now, hist>>
+VARIABLES tok, now, hist,  \* tok = tokens * Scale; hist = sequence of [t, size, adm]
+          lo, hi, started  \* potentials (see above)
+vars == <<tok, now, hist, lo, hi, started>>
+PView == <<tok, lo, hi, started>>
 
-Init == tok = Burst * Scale /\ now = 0 /\ hist = <<>>
+Init == tok = Burst * Scale /\ now = 0 /\ hist = <<>> /\ lo = 0 /\ hi = 0 /\ started = FALSE
 
 Min(a, b) == IF a < b THEN a ELSE b
+Max(a, b) == IF a > b THEN a ELSE b
 
 \* a packet of `size` bytes arrives `gap` time units after the previous one
 Arrive(gap, size) ==
   LET t2   == now + gap
       tok2 == Min(Burst * Scale, tok + Rate * gap)
       adm  == tok2 >= size * Scale
-  IN /\ Len(hist) < MaxLen
-     /\ now' = t2
+      g    == IF started THEN gap ELSE 0     \* windows begin at arrivals: time before the first one does not count
+  IN /\ MaxLen = 0 \/ Len(hist) < MaxLen
+     /\ now' = IF MaxLen = 0 THEN 0 ELSE t2
      /\ tok' = IF adm THEN tok2 - size * Scale ELSE tok2
-     /\ hist' = Append(hist, [t |-> t2, size |-> size, adm |-> adm])
+     /\ hist' = IF MaxLen = 0 THEN hist ELSE Append(hist, [t |-> t2, size |-> size, adm |-> adm])
+     /\ started' = TRUE
+     /\ lo' = Max(0, lo + Rate * g - (IF adm THEN size * Scale ELSE 0))
+     /\ hi' = IF adm THEN Max(hi + size * Scale - Rate * g, size * Scale) ELSE Max(0, hi - Rate * g)
 
 \* offered load >= rate: the packet is at least as large as what accrued in the gap
 Backlogged(gap, size) == size * Scale >= Rate * gap
@@ -66,4 +86,16 @@ Upper == \A i, j \in 1..Len(hist) : (i <= j /\ hist[i].adm /\ hist[j].adm) =>
             Scale * (Adm(hist, i, j) - Burst) <= Rate * (hist[j].t - hist[i].t)
 Lower == \A i, j \in 1..Len(hist) : i <= j =>
             Scale * (Adm(hist, i + 1, j) + Burst + MaxPkt) >= Rate * (hist[j].t - hist[i].t)
+
+UpperP == hi <= Scale * Burst
+LowerP == lo <= Scale * (Burst + MaxPkt)
+\* both formulations agree on every history (checked with MaxLen > 0): the potentials speak about the windows
+\* that end at the latest arrival
+UpperNow == LET j == Len(hist) IN \A i \in 1..j : (hist[i].adm /\ hist[j].adm) =>
+               Scale * (Adm(hist, i, j) - Burst) <= Rate * (hist[j].t - hist[i].t)
+LowerNow == LET j == Len(hist) IN \A i \in 1..j :
+               Scale * (Adm(hist, i + 1, j) + Burst + MaxPkt) >= Rate * (hist[j].t - hist[i].t)
+Agree == hist # <<>> => /\ (hist[Len(hist)].adm => (UpperNow <=> UpperP))
+                        /\ (LowerNow <=> LowerP)
+UView == <<tok, hi, started>>
 =============================================================================
